@@ -21,11 +21,11 @@ which field was printed under which trait with which width/precision is visible 
 
 Corners kept out and reported instead:
   * rename_all on names with digits (`V2` -> `v_2` under snake_case with convert_case 0.8; the documentation says nothing).
-Genuine defect carried by two programs (`ptr_arg_bare_field_probe`, `ptr_arg_bare_field_real`), reproduced natively:
-  `#[display("{:p}", _0)]` prints the field's own Pointer impl / the pointee's address, although as an argument expression `_0` is a
-  reference to the field (docs: "you have to dereference once"); the very same argument in `#[display("a{:p}", _0)]` prints the address
-  of the field. Cause: transparent_call_on_fields hands the binding itself (`_0`, a `&Field`) to `Pointer::fmt` whenever the single
-  argument is a bare field. Repair in /tmp/C02_fix.diff.
+Defect found by two programs (`ptr_arg_bare_field_probe`, `ptr_arg_bare_field_real`), reproduced natively, fixed in /repo f6717fb:
+  `#[display("{:p}", _0)]` printed the field's own Pointer impl / the pointee's address, although as an argument expression `_0` is a
+  reference to the field (docs: "you have to dereference once"); the very same argument in `#[display("a{:p}", _0)]` printed the address
+  of the field. Cause: transparent_call_on_fields handed the binding itself (`_0`, a `&Field`) to `Pointer::fmt` whenever the single
+  argument was a bare field, whether the name came from the literal or from the argument list.
 """
 import itertools
 import random
@@ -144,7 +144,7 @@ def cases(tier, seed):
     add("ptr_real_named_ctx", st("Display", RU, Attr(["at ", P("_0", "p")])), unwind=20)
     add("ptr_real_arg_deref", st("Display", RU, Attr([P(None, "p")], ["*_0"])), unwind=20)
     add("ptr_real_arg_ref_ctx", st("Display", RU, Attr(["a", P(None, "p")], ["_0"])), unwind=20)
-    # genuine defect (see module docstring): `{:p}` with the bare field as its argument
+    # `{:p}` with the bare field as its argument: a reference to the field (defect fixed in /repo f6717fb, see module docstring)
     add("ptr_arg_bare_field_probe", st("Display", T1, Attr([P(None, "p")], ["_0"])), unwind=20)
     add("ptr_arg_bare_field_real", st("Display", RU, Attr([P(None, "p")], ["_0"])), unwind=20)
     # 10. Debug with a variant-level attribute
